@@ -396,7 +396,7 @@ func (p *parser) processCtl(dst []node, root, r *node, ctl []byte, offset int) (
 		}
 		// Check static/variable.
 		if r.static = isStatic(r.src); r.static {
-			r.src = bytealg.Trim(r.src, quotes)
+			r.src = unquote(r.src)
 		} else {
 			r.src, r.mod = extractMods(r.src)
 			r.src, r.subset = extractSet(r.src)
@@ -460,7 +460,7 @@ func (p *parser) processCtl(dst []node, root, r *node, ctl []byte, offset int) (
 			// Var-to-var ...
 			r.dst = replaceQB(m[1])
 			if r.static = isStatic(m[2]); r.static {
-				r.src = bytealg.Trim(m[2], quotes)
+				r.src = unquote(m[2])
 			} else {
 				r.src, r.mod = extractMods(m[2])
 				r.src, r.subset = extractSet(r.src)
@@ -572,10 +572,10 @@ func (p *parser) parseCondExpr(re *regexp.Regexp, expr []byte) (l, r []byte, sl,
 			op = p.parseOp(m[2])
 		}
 		if len(l) > 0 {
-			l = bytealg.Trim(l, quotes)
+			l = unquote(l)
 		}
 		if len(r) > 0 {
-			r = bytealg.Trim(r, quotes)
+			r = unquote(r)
 		}
 	}
 	return
@@ -738,7 +738,7 @@ func extractArgs(l []byte) []*arg {
 		if !static {
 			a, set = extractSet(a)
 		} else {
-			a = bytealg.Trim(a, quotes)
+			a = unquote(a)
 		}
 		r = append(r, &arg{
 			val:    a,
@@ -813,4 +813,12 @@ func rollupSwitchNodes(nodes []node) []node {
 		r = append(r, group)
 	}
 	return r
+}
+
+// Remove the pair of quotes that encloses static string. Quotes of the other kind inside the pair belong to the value.
+func unquote(b []byte) []byte {
+	if n := len(b); n >= 2 && b[0] == b[n-1] && bytes.IndexByte(quotes, b[0]) != -1 {
+		return b[1 : n-1]
+	}
+	return bytealg.Trim(b, quotes)
 }
